@@ -1,10 +1,17 @@
 ----------------------------- MODULE MC_PySlice -----------------------------
 EXTENDS PySlice, Json
-CONSTANTS MaxLen, MaxBound
+CONSTANTS MaxLen, MaxBound, LongLens
 Bounds == (-MaxBound..MaxBound) \cup {ABS, HP, HN}
 Steps == {ABS, HP, HN, 0, 1, -1, 2, -2, 3, -3}
+\* containers long enough to live in another representation (a string of more than 23 bytes is on the heap; one of 12 multi-byte
+\* characters has 12 characters and about 36 bytes): bounds at and around both ends, counted from either end
+EdgeBounds(n) == {ABS, HP, HN, 0, 1, 2, n - 1, n, n + 1, -1, -2, 1 - n, -n, -n - 1}
+LongSteps == {ABS, 1, -1, 2, -3}
 VARIABLES v
 Init == \/ v \in [op : {"slice"}, len : 0..MaxLen, a : Bounds, b : Bounds, c : Steps]
+        \/ \E n \in LongLens : v \in [op : {"slice"}, len : {n}, a : EdgeBounds(n), b : EdgeBounds(n), c : LongSteps]
+        \/ \E n \in LongLens : v \in [op : {"index"}, len : {n}, a : EdgeBounds(n) \ {ABS}, b : {0}, c : {0}]
+        \/ \E n \in LongLens : v \in [op : {"strops"}, len : {n}, a : {0, 1, n - 1, n, n + 1}, b : {0}, c : {0}]
         \/ v \in [op : {"index"}, len : 0..MaxLen, a : Bounds \ {ABS}, b : {0}, c : {0}]
         \/ v \in [op : {"strops"}, len : 0..MaxLen, a : 0..(MaxLen + 1), b : {0}, c : {0}]
 Next == UNCHANGED v
